@@ -430,7 +430,10 @@ func (x *Executor) execLoop(fr *Frame, li *loopInfo, ins []incoming) map[*ssa.Ba
 		if ax := u.heapTyping(c, n); ax != "" {
 			u.emit("(assert " + ax + ")")
 		}
-		if ws.all {
+		if ws.all && !ws.direct[c] {
+			// unknown code in the body cannot reach the objects this function allocated and kept to
+			// itself; a component the body writes DIRECTLY is different: the body may have written
+			// exactly those objects (decoded[j] = tx), so nothing is kept for it
 			x.protectComp(stE, stH, c, x.heapGet(stE, c), n)
 		}
 		x.unreachableFresh(stH, c, n)
